@@ -213,4 +213,161 @@ theorem crossSupport_vertical_transport (mr : MinRule) (H W H' W' dist : Nat) (I
       congr 1; omega
   · simp
 
+/-! ### the pre-filtered images -/
+
+theorem median3_transport (H W H' W' : Nat) (g g' : Cbca.Img) (y x ty tx : Nat)
+    (hin' : 1 ≤ y ∧ y + 1 < H' ∧ 1 ≤ x ∧ x + 1 < W') (hin : y + ty + 1 < H ∧ x + tx + 1 < W)
+    (h : ∀ y' x', y - 1 ≤ y' → y' ≤ y + 1 → x - 1 ≤ x' → x' ≤ x + 1 → g' y' x' = g (y' + ty) (x' + tx)) :
+    median3 H' W' g' y x = median3 H W g (y + ty) (x + tx) := by
+  unfold median3
+  have hw : window3 g' y x = window3 g (y + ty) (x + tx) := by
+    unfold window3
+    have e1 : y + ty - 1 = y - 1 + ty := by omega
+    have e2 : x + tx - 1 = x - 1 + tx := by omega
+    have e3 : y + ty + 1 = y + 1 + ty := by omega
+    have e4 : x + tx + 1 = x + 1 + tx := by omega
+    rw [e1, e2, e3, e4,
+      h (y - 1) (x - 1) (by omega) (by omega) (by omega) (by omega),
+      h (y - 1) x (by omega) (by omega) (by omega) (by omega),
+      h (y - 1) (x + 1) (by omega) (by omega) (by omega) (by omega),
+      h y (x - 1) (by omega) (by omega) (by omega) (by omega),
+      h y x (by omega) (by omega) (by omega) (by omega),
+      h y (x + 1) (by omega) (by omega) (by omega) (by omega),
+      h (y + 1) (x - 1) (by omega) (by omega) (by omega) (by omega),
+      h (y + 1) x (by omega) (by omega) (by omega) (by omega),
+      h (y + 1) (x + 1) (by omega) (by omega) (by omega) (by omega)]
+  rw [h y x (by omega) (by omega) (by omega) (by omega), hw]
+  have c1 : 1 ≤ y ∧ y + 1 < H' ∧ 1 ≤ x ∧ x + 1 < W' := hin'
+  have c2 : 1 ≤ y + ty ∧ y + ty + 1 < H ∧ 1 ≤ x + tx ∧ x + tx + 1 < W := by omega
+  rw [if_pos c1, if_pos c2]
+
+/-- `inp'` is the crop of the scene of `inp` starting at `(ty, tx)` (full-image coordinates), with the same
+    configuration -/
+structure CropOf (inp inp' : Input) (ty tx : Nat) : Prop where
+  off : inp'.off = inp.off
+  dist : inp'.dist = inp.dist
+  I : inp'.I = inp.I
+  subpix : inp'.subpix = inp.subpix
+  mr : inp'.mr = inp.mr
+  hasMskL : inp'.hasMskL = inp.hasMskL
+  validL : inp'.validL = inp.validL
+  hasMskR : inp'.hasMskR = inp.hasMskR
+  validR : inp'.validR = inp.validR
+  fitH : ty + inp'.H ≤ inp.H
+  fitW : tx + inp'.W ≤ inp.W
+  imL : ∀ y x, y < inp'.H → x < inp'.W → inp'.imL y x = inp.imL (y + ty) (x + tx)
+  mskL : ∀ y x, y < inp'.H → x < inp'.W → inp'.mskL y x = inp.mskL (y + ty) (x + tx)
+  imR : ∀ y x, y < inp'.H → x < inp'.W → inp'.imR y x = inp.imR (y + ty) (x + tx)
+  mskR : ∀ y x, y < inp'.H → x < inp'.W → inp'.mskR y x = inp.mskR (y + ty) (x + tx)
+
+theorem filteredL_transport {inp inp' : Input} {ty tx : Nat} (hc : CropOf inp inp' ty tx) (y x : Nat)
+    (hin : 1 ≤ y ∧ y + 1 < inp'.H ∧ 1 ≤ x ∧ x + 1 < inp'.W) :
+    inp'.filteredL y x = inp.filteredL (y + ty) (x + tx) := by
+  have h1 := hc.fitH
+  have h2 := hc.fitW
+  unfold Input.filteredL
+  apply median3_transport _ _ _ _ _ _ y x ty tx hin (by omega)
+  intro y' x' _ _ _ _
+  unfold maskedImg
+  rw [hc.hasMskL, hc.validL, hc.imL y' x' (by omega) (by omega), hc.mskL y' x' (by omega) (by omega)]
+
+theorem filteredR_transport {inp inp' : Input} {ty tx : Nat} (hc : CropOf inp inp' ty tx) (k y x : Nat)
+    (hin : 1 ≤ y ∧ y + 1 < inp'.H ∧ 1 ≤ x ∧ x + 2 < inp'.W) :
+    inp'.filteredR k y x = inp.filteredR k (y + ty) (x + tx) := by
+  have h1 := hc.fitH
+  have h2 := hc.fitW
+  unfold Input.filteredR
+  by_cases hk : k = 0
+  · rw [if_pos hk, if_pos hk]
+    apply median3_transport _ _ _ _ _ _ y x ty tx (by omega) (by omega)
+    intro y' x' _ _ _ _
+    unfold maskedImg
+    rw [hc.hasMskR, hc.validR, hc.imR y' x' (by omega) (by omega), hc.mskR y' x' (by omega) (by omega)]
+  · rw [if_neg hk, if_neg hk]
+    apply median3_transport _ _ _ _ _ _ y x ty tx (by omega) (by omega)
+    intro y' x' _ _ _ _
+    unfold shiftedImg
+    have e : x' + tx + 1 = x' + 1 + tx := by omega
+    rw [hc.hasMskR, hc.validR, hc.subpix, e, hc.imR y' x' (by omega) (by omega),
+      hc.mskR y' x' (by omega) (by omega), hc.imR y' (x' + 1) (by omega) (by omega),
+      hc.mskR y' (x' + 1) (by omega) (by omega)]
+
+/-! ### the cross supports of the crop are those of the whole, away from the crop's border -/
+
+theorem crossL_horizontal {inp inp' : Input} {ty tx : Nat} (hc : CropOf inp inp' ty tx) (ya xa : Nat)
+    (hy : 1 ≤ ya ∧ ya + 1 < inp'.h)
+    (hx : armBound inp.dist + 1 ≤ xa ∧ xa + armBound inp.dist + 1 < inp'.w) :
+    (inp'.crossL ya xa).left = (inp.crossL (ya + ty) (xa + tx)).left ∧
+    (inp'.crossL ya xa).right = (inp.crossL (ya + ty) (xa + tx)).right := by
+  have h1 := hc.fitH
+  have h2 := hc.fitW
+  have ho := hc.off
+  unfold Input.h at hy
+  unfold Input.w at hx
+  unfold Input.crossL Input.h Input.w
+  rw [hc.mr, hc.dist, hc.I]
+  apply crossSupport_horizontal_transport inp.mr _ _ _ _ inp.dist inp.I _ _ ya xa ty tx (by omega) (by omega)
+    (by omega)
+  intro x' hx1 hx2
+  unfold crop
+  rw [filteredL_transport hc (ya + inp'.off) (x' + inp'.off) (by omega), ho]
+  congr 1 <;> omega
+
+theorem crossL_vertical {inp inp' : Input} {ty tx : Nat} (hc : CropOf inp inp' ty tx) (ya xa : Nat)
+    (hy : armBound inp.dist + 1 ≤ ya ∧ ya + armBound inp.dist + 1 < inp'.h)
+    (hx : 1 ≤ xa ∧ xa + 1 < inp'.w) :
+    (inp'.crossL ya xa).top = (inp.crossL (ya + ty) (xa + tx)).top ∧
+    (inp'.crossL ya xa).bot = (inp.crossL (ya + ty) (xa + tx)).bot := by
+  have h1 := hc.fitH
+  have h2 := hc.fitW
+  have ho := hc.off
+  unfold Input.h at hy
+  unfold Input.w at hx
+  unfold Input.crossL Input.h Input.w
+  rw [hc.mr, hc.dist, hc.I]
+  apply crossSupport_vertical_transport inp.mr _ _ _ _ inp.dist inp.I _ _ ya xa ty tx (by omega) (by omega)
+    (by omega)
+  intro y' hy1 hy2
+  unfold crop
+  rw [filteredL_transport hc (y' + inp'.off) (xa + inp'.off) (by omega), ho]
+  congr 1 <;> omega
+
+theorem crossR_horizontal {inp inp' : Input} {ty tx : Nat} (hc : CropOf inp inp' ty tx) (k ya xr : Nat)
+    (hy : 1 ≤ ya ∧ ya + 1 < inp'.h)
+    (hx : armBound inp.dist + 1 ≤ xr ∧ xr + armBound inp.dist + 2 < inp'.w) :
+    (inp'.crossR k ya xr).left = (inp.crossR k (ya + ty) (xr + tx)).left ∧
+    (inp'.crossR k ya xr).right = (inp.crossR k (ya + ty) (xr + tx)).right := by
+  have h1 := hc.fitH
+  have h2 := hc.fitW
+  have ho := hc.off
+  unfold Input.h at hy
+  unfold Input.w at hx
+  unfold Input.crossR Input.h Input.wr
+  rw [hc.mr, hc.dist, hc.I]
+  apply crossSupport_horizontal_transport inp.mr _ _ _ _ inp.dist inp.I _ _ ya xr ty tx (by omega)
+    (by split <;> omega) (by split <;> omega)
+  intro x' hx1 hx2
+  unfold crop
+  rw [filteredR_transport hc k (ya + inp'.off) (x' + inp'.off) (by omega), ho]
+  congr 1 <;> omega
+
+theorem crossR_vertical {inp inp' : Input} {ty tx : Nat} (hc : CropOf inp inp' ty tx) (k ya xr : Nat)
+    (hy : armBound inp.dist + 1 ≤ ya ∧ ya + armBound inp.dist + 1 < inp'.h)
+    (hx : 1 ≤ xr ∧ xr + 2 < inp'.w) :
+    (inp'.crossR k ya xr).top = (inp.crossR k (ya + ty) (xr + tx)).top ∧
+    (inp'.crossR k ya xr).bot = (inp.crossR k (ya + ty) (xr + tx)).bot := by
+  have h1 := hc.fitH
+  have h2 := hc.fitW
+  have ho := hc.off
+  unfold Input.h at hy
+  unfold Input.w at hx
+  unfold Input.crossR Input.h Input.wr
+  rw [hc.mr, hc.dist, hc.I]
+  apply crossSupport_vertical_transport inp.mr _ _ _ _ inp.dist inp.I _ _ ya xr ty tx (by omega) (by omega)
+    (by omega)
+  intro y' hy1 hy2
+  unfold crop
+  rw [filteredR_transport hc k (y' + inp'.off) (xr + inp'.off) (by omega), ho]
+  congr 1 <;> omega
+
 end Pandora.C13
